@@ -129,6 +129,7 @@ type Thread struct {
 	BlockEpoch int
 	BlockWhy   string
 	WaitRecv   int
+	Ready      func(e *Engine, st *State) bool
 	Quiesced   bool
 }
 
@@ -180,6 +181,7 @@ type State struct {
 	NoSched   bool
 	NeedSched bool
 	PoolReuse bool
+	VisibleAtomics bool
 	ConcreteClock bool
 	ClockTick int64
 	narrowCache map[int]int
@@ -215,7 +217,7 @@ func (st *State) fork() *State {
 	n := &State{
 		id: stateSeq, nextObj: st.nextObj, Cur: st.Cur,
 		Steps: st.Steps, SymBr: st.SymBr, PanicLbl: st.PanicLbl, Depth: st.Depth, Preempts: st.Preempts,
-		LastNow: st.LastNow, Epoch: st.Epoch, NoSched: st.NoSched, NeedSched: st.NeedSched, PoolReuse: st.PoolReuse, ConcreteClock: st.ConcreteClock, ClockTick: st.ClockTick,
+		LastNow: st.LastNow, Epoch: st.Epoch, NoSched: st.NoSched, NeedSched: st.NeedSched, PoolReuse: st.PoolReuse, VisibleAtomics: st.VisibleAtomics, ConcreteClock: st.ConcreteClock, ClockTick: st.ClockTick,
 	}
 	// the parent also needs a new id so that neither mutates shared objects in place
 	stateSeq++
